@@ -79,7 +79,7 @@ def collect(pid, tier, seed, d, binp):
 
     # 2. replay the behaviours on the real library (built from /repo's working tree), run random scenarios
     hist = os.path.join(d, "hist.ndjson")
-    cap = 5000 if tier == "quick" else 100000
+    cap = 5000 if tier == "quick" else 40000
     run_harness(binp, ["engine", "--scn", scnp, "--out", hist, "--seed", str(seed), "--count", str(count), "--modes", modes,
                        "-x", "maxscn=%d" % cap])
 
@@ -89,7 +89,7 @@ def collect(pid, tier, seed, d, binp):
         (summ.get("scenarios", 0), summ.get("events", 0), len(fails), len(drifts)))
 
     # 3b. code -> spec: every recorded history must be explained by the operational specification
-    tv_n, tv_ok, tv_states, tv_trans = trace_validate(d, "TraceEngine", hist, shards=8)
+    tv_n, tv_ok, tv_states, tv_trans = trace_validate(d, "TraceEngine", hist, shards=8, limit=4000 if tier == "quick" else 20000)
     states += tv_states
     transitions += tv_trans
     unexplained = tv_n - len(tv_ok)
